@@ -95,7 +95,11 @@ func inspectDir(dir string, allowed [][]byte, where string) []Mismatch {
 	return out
 }
 
+// oldAsLink: the previous file of the next prepared directory is a symbolic link to a file outside it
+var oldAsLink bool
+
 type writeScenario struct {
+	Variant string `json:"variant,omitempty"`
 	Name    string `json:"name"`
 	Enc     string `json:"enc"`
 	HasOld  bool   `json:"has_old"`
@@ -122,7 +126,14 @@ func prepareDir(hasOld bool, pad int, name string) (string, [][]byte, error) {
 		if err := os.MkdirAll(dir, 0o755); err != nil {
 			return "", nil, err
 		}
-		if err := os.WriteFile(filepath.Join(dir, name), oldB, 0o644); err != nil {
+		target := filepath.Join(dir, name)
+		if oldAsLink {
+			target = filepath.Join(filepath.Dir(dir), "elsewhere-"+name)
+			if err := os.Symlink(target, filepath.Join(dir, name)); err != nil {
+				return "", nil, err
+			}
+		}
+		if err := os.WriteFile(target, oldB, 0o644); err != nil {
 			return "", nil, err
 		}
 		return dir, [][]byte{oldB, newB}, nil
@@ -188,188 +199,207 @@ func writerMain(args []string) int {
 		pads = []int{0, 5000, 70000}
 	}
 	nsc := 0
-	for _, enc := range []string{"json", "yaml"} {
-		for _, hasOld := range []bool{false, true} {
-			for _, pad := range pads {
-				name := "x." + enc
-				base := writeScenario{Name: name, Enc: enc, HasOld: hasOld, Pad: pad}
-				_, allowed, err := prepareDir(hasOld, pad, name)
-				if err != nil {
-					report(base, Mismatch{Props: []string{"TOOL"}, What: "prepare", Note: err.Error()})
-					continue
-				}
-				newLen := len(allowed[len(allowed)-1])
-				// --- pause: in-process, hooks observe at every point
-				{
-					sc := base
-					sc.Mode = "pause"
-					dir, allowed, _ := prepareDir(hasOld, pad, name)
-					var ms []Mismatch
-					seen := map[string]bool{}
-					cdi.VerifHook = func(point string, a ...interface{}) {
-						if strings.HasPrefix(point, "write.") {
-							seen[point] = true
-							ms = append(ms, inspectDir(dir, allowed, "paused at "+point)...)
-						}
-					}
-					c, _ := cdi.NewCache(cdi.WithSpecDirs(dir), cdi.WithAutoRefresh(false))
-					pan, stack, _ := guarded(60*time.Second, func() {
-						if err := c.WriteSpec(writerSpec(2, pad), name); err != nil {
-							ms = append(ms, Mismatch{Props: []string{"C10"}, What: "undisturbed-write-failed", Got: err.Error()})
-						}
-					})
-					cdi.VerifHook = nil
-					if pan != nil {
-						ms = append(ms, Mismatch{Props: []string{"C08", "C10"}, What: "panic", Got: fmt.Sprint(pan), Note: stack})
-					}
-					col.count("hook_points_seen", len(seen))
-					if len(seen) == 0 {
-						ms = append(ms, Mismatch{Props: []string{"TOOL"}, What: "no-write-hook-fired", Note: "harness not built with -tags verif, or the hooks were removed"})
-					}
-					ms = append(ms, inspectDir(dir, allowed[len(allowed)-1:], "after a successful write")...)
-					report(sc, ms...)
-					os.RemoveAll(filepath.Dir(dir))
-					nsc++
-					col.done([]byte(jsonOf(sc)), true, len(seen))
-				}
-				// --- crash: the writer is killed at each point
-				for _, pt := range writePoints {
-					sc := base
-					sc.Mode, sc.Point = "crash", pt
-					dir, allowed, _ := prepareDir(hasOld, pad, name)
-					code, out := runChild([]string{"-dir", dir, "-name", name, "-v", "2", "-pad", fmt.Sprint(pad), "-crash", pt}, "")
-					sc.Outcome = fmt.Sprint("exit ", code)
-					switch code {
-					case 128 + 9:
-						report(sc, inspectDir(dir, allowed, "after SIGKILL at "+pt)...)
-					case 0:
-						// this writer never reaches that point (another protocol): it ran to completion
-						col.count("crash_points_not_reached", 1)
-						report(sc, inspectDir(dir, allowed[len(allowed)-1:], "after a complete write (point "+pt+" not reached)")...)
-					default:
-						report(sc, Mismatch{Props: []string{"TOOL"}, What: "child-failed", Got: code, Note: out})
-					}
-					os.RemoveAll(filepath.Dir(dir))
-					nsc++
-					col.done([]byte(jsonOf(sc)), true, 1)
-				}
-				// --- fsize: the write fails at offset k
-				offsets := []int{}
-				if newLen <= 400 && (thorough || true) {
-					step := 1
-					if !thorough {
-						step = 7
-					}
-					for k := 0; k < newLen; k += step {
-						offsets = append(offsets, k)
-					}
-					offsets = append(offsets, newLen-1)
-				} else {
-					for i := 0; i < 12; i++ {
-						offsets = append(offsets, int((*seed*7919+int64(i)*104729)%int64(newLen)))
-					}
-					offsets = append(offsets, 0, 1, 4095, 4096, 4097, newLen-1)
-				}
-				for _, k := range offsets {
-					if k < 0 || k >= newLen {
+	hooksSeen := false
+	// variants: an ordinary name; the previous file is a symbolic link to a file elsewhere; a name with a '*'
+	// (legal, and special to os.CreateTemp patterns)
+	for _, variant := range []string{"plain", "link", "star"} {
+		for _, enc := range []string{"json", "yaml"} {
+			for _, hasOld := range []bool{false, true} {
+				for _, pad := range pads {
+					if (variant == "link" && !hasOld) || (variant != "plain" && pad != 0) {
 						continue
 					}
-					sc := base
-					sc.Mode, sc.FSize = "fsize", k
-					dir, allowed, _ := prepareDir(hasOld, pad, name)
-					if !hasOld {
-						_ = os.MkdirAll(dir, 0o755)
+					oldAsLink = variant == "link"
+					name := "x." + enc
+					if variant == "star" {
+						name = "s*r." + enc
 					}
-					code, out := runChild([]string{"-dir", dir, "-name", name, "-v", "2", "-pad", fmt.Sprint(pad), "-fsize", fmt.Sprint(k)}, "")
-					sc.Outcome = fmt.Sprint("exit ", code)
-					switch code {
-					case 3: // WriteSpec returned an error: only the previous content may be visible
-						report(sc, inspectDir(dir, allowed[:len(allowed)-1], fmt.Sprintf("after a write that failed at offset %d", k))...)
-					case 0:
-						// a write that reports success although the file could not be written completely
-						report(sc, inspectDir(dir, allowed[len(allowed)-1:], fmt.Sprintf("after a write reported successful under a %d byte limit", k))...)
-					default:
-						report(sc, Mismatch{Props: []string{"TOOL"}, What: "child-failed", Got: code, Note: out})
+					base := writeScenario{Name: name, Enc: enc, HasOld: hasOld, Pad: pad, Variant: variant}
+					_, allowed, err := prepareDir(hasOld, pad, name)
+					if err != nil {
+						report(base, Mismatch{Props: []string{"TOOL"}, What: "prepare", Note: err.Error()})
+						continue
 					}
-					os.RemoveAll(filepath.Dir(dir))
-					nsc++
-					col.done([]byte(jsonOf(sc)), true, 1)
-				}
-				// --- follow-up: after an interrupted or failed write of a LONGER content, a complete write of a
-				// shorter one must publish exactly the shorter one (nothing left over may leak into it)
-				{
-					bigPad := pad + 300
-					shortB, err1 := referenceBytes(3, pad, name)
-					bigB, err2 := referenceBytes(4, bigPad, name)
-					if err1 != nil || err2 != nil {
-						report(base, Mismatch{Props: []string{"TOOL"}, What: "prepare", Note: fmt.Sprint(err1, err2)})
-					} else {
-						type first struct {
-							mode string
-							args []string
-						}
-						firsts := []first{}
-						for _, pt := range writePoints {
-							firsts = append(firsts, first{"crash at " + pt, []string{"-crash", pt}})
-						}
-						for _, k := range []int{len(shortB) + 20, len(bigB) / 2, len(bigB) - 1} {
-							firsts = append(firsts, first{fmt.Sprintf("write failing at offset %d", k), []string{"-fsize", fmt.Sprint(k)}})
-						}
-						for _, f := range firsts {
-							sc := base
-							sc.Mode, sc.Point = "followup", f.mode
-							dir, _, _ := prepareDir(hasOld, pad, name)
-							if !hasOld {
-								_ = os.MkdirAll(dir, 0o755)
-							}
-							code1, out1 := runChild(append([]string{"-dir", dir, "-name", name, "-v", "4", "-pad", fmt.Sprint(bigPad)}, f.args...), "")
-							code2, out2 := runChild([]string{"-dir", dir, "-name", name, "-v", "3", "-pad", fmt.Sprint(pad)}, "")
-							sc.Outcome = fmt.Sprint("exit ", code1, " then exit ", code2)
-							switch {
-							case code1 != 0 && code1 != 3 && code1 != 128+9:
-								report(sc, Mismatch{Props: []string{"TOOL"}, What: "child-failed", Got: code1, Note: out1})
-							case code2 != 0:
-								report(sc, Mismatch{Props: []string{"C10"}, What: "write-after-interrupted-write-failed", Got: code2, Note: out2})
-							default:
-								report(sc, inspectDir(dir, [][]byte{shortB}, "after a complete write that followed a "+f.mode+" of a longer content")...)
-							}
-							os.RemoveAll(filepath.Dir(dir))
-							nsc++
-							col.done([]byte(jsonOf(sc)), true, 2)
-						}
-					}
-				}
-				// --- strace: normal run and two failing ones, validated by TLC afterwards
-				if *straceDir != "" {
-					for i, k := range []int{-1, newLen / 2, 0} {
+					newLen := len(allowed[len(allowed)-1])
+					// --- pause: in-process, hooks observe at every point
+					{
 						sc := base
-						sc.Mode, sc.FSize = "strace", k
+						sc.Mode = "pause"
 						dir, allowed, _ := prepareDir(hasOld, pad, name)
-						if !hasOld {
-							_ = os.MkdirAll(dir, 0o755)
+						var ms []Mismatch
+						seen := map[string]bool{}
+						cdi.VerifHook = func(point string, a ...interface{}) {
+							if strings.HasPrefix(point, "write.") {
+								seen[point] = true
+								ms = append(ms, inspectDir(dir, allowed, "paused at "+point)...)
+							}
 						}
-						out := filepath.Join(*straceDir, fmt.Sprintf("trace-%s-%v-%d-%d.txt", enc, hasOld, pad, i))
-						a := []string{"-dir", dir, "-name", name, "-v", "2", "-pad", fmt.Sprint(pad)}
-						if k >= 0 {
-							a = append(a, "-fsize", fmt.Sprint(k))
+						c, _ := cdi.NewCache(cdi.WithSpecDirs(dir), cdi.WithAutoRefresh(false))
+						pan, stack, _ := guarded(60*time.Second, func() {
+							if err := c.WriteSpec(writerSpec(2, pad), name); err != nil {
+								ms = append(ms, Mismatch{Props: []string{"C10"}, What: "undisturbed-write-failed", Got: err.Error()})
+							}
+						})
+						cdi.VerifHook = nil
+						if pan != nil {
+							ms = append(ms, Mismatch{Props: []string{"C08", "C10"}, What: "panic", Got: fmt.Sprint(pan), Note: stack})
 						}
-						code, cout := runChild(a, out)
+						col.count("hook_points_seen", len(seen))
+						if len(seen) == 0 {
+							// a write path without observation points: the other modes (kill, failing write) still see it
+							col.count("writes_without_observation_points", 1)
+						} else {
+							hooksSeen = true
+						}
+						ms = append(ms, inspectDir(dir, allowed[len(allowed)-1:], "after a successful write")...)
+						report(sc, ms...)
+						os.RemoveAll(filepath.Dir(dir))
+						nsc++
+						col.done([]byte(jsonOf(sc)), true, len(seen))
+					}
+					// --- crash: the writer is killed at each point
+					for _, pt := range writePoints {
+						sc := base
+						sc.Mode, sc.Point = "crash", pt
+						dir, allowed, _ := prepareDir(hasOld, pad, name)
+						code, out := runChild([]string{"-dir", dir, "-name", name, "-v", "2", "-pad", fmt.Sprint(pad), "-crash", pt}, "")
 						sc.Outcome = fmt.Sprint("exit ", code)
-						if code != 0 && code != 3 {
-							report(sc, Mismatch{Props: []string{"TOOL"}, What: "straced-child-failed", Got: code, Note: cout})
+						switch code {
+						case 128 + 9:
+							report(sc, inspectDir(dir, allowed, "after SIGKILL at "+pt)...)
+						case 0:
+							// this writer never reaches that point (another protocol): it ran to completion
+							col.count("crash_points_not_reached", 1)
+							report(sc, inspectDir(dir, allowed[len(allowed)-1:], "after a complete write (point "+pt+" not reached)")...)
+						default:
+							report(sc, Mismatch{Props: []string{"TOOL"}, What: "child-failed", Got: code, Note: out})
 						}
-						oldLen := 0
-						if hasOld {
-							oldLen = len(allowed[0])
-						}
-						straces = append(straces, straceRec{File: out, Dir: dir, NewLen: newLen, OldLen: oldLen, Target: name, Sc: sc})
 						os.RemoveAll(filepath.Dir(dir))
 						nsc++
 						col.done([]byte(jsonOf(sc)), true, 1)
 					}
+					// --- fsize: the write fails at offset k
+					offsets := []int{}
+					if newLen <= 400 && (thorough || true) {
+						step := 1
+						if !thorough {
+							step = 7
+						}
+						for k := 0; k < newLen; k += step {
+							offsets = append(offsets, k)
+						}
+						offsets = append(offsets, newLen-1)
+					} else {
+						for i := 0; i < 12; i++ {
+							offsets = append(offsets, int((*seed*7919+int64(i)*104729)%int64(newLen)))
+						}
+						offsets = append(offsets, 0, 1, 4095, 4096, 4097, newLen-1)
+					}
+					for _, k := range offsets {
+						if k < 0 || k >= newLen {
+							continue
+						}
+						sc := base
+						sc.Mode, sc.FSize = "fsize", k
+						dir, allowed, _ := prepareDir(hasOld, pad, name)
+						if !hasOld {
+							_ = os.MkdirAll(dir, 0o755)
+						}
+						code, out := runChild([]string{"-dir", dir, "-name", name, "-v", "2", "-pad", fmt.Sprint(pad), "-fsize", fmt.Sprint(k)}, "")
+						sc.Outcome = fmt.Sprint("exit ", code)
+						switch code {
+						case 3: // WriteSpec returned an error: only the previous content may be visible
+							report(sc, inspectDir(dir, allowed[:len(allowed)-1], fmt.Sprintf("after a write that failed at offset %d", k))...)
+						case 0:
+							// a write that reports success although the file could not be written completely
+							report(sc, inspectDir(dir, allowed[len(allowed)-1:], fmt.Sprintf("after a write reported successful under a %d byte limit", k))...)
+						default:
+							report(sc, Mismatch{Props: []string{"TOOL"}, What: "child-failed", Got: code, Note: out})
+						}
+						os.RemoveAll(filepath.Dir(dir))
+						nsc++
+						col.done([]byte(jsonOf(sc)), true, 1)
+					}
+					// --- follow-up: after an interrupted or failed write of a LONGER content, a complete write of a
+					// shorter one must publish exactly the shorter one (nothing left over may leak into it)
+					{
+						bigPad := pad + 300
+						shortB, err1 := referenceBytes(3, pad, name)
+						bigB, err2 := referenceBytes(4, bigPad, name)
+						if err1 != nil || err2 != nil {
+							report(base, Mismatch{Props: []string{"TOOL"}, What: "prepare", Note: fmt.Sprint(err1, err2)})
+						} else {
+							type first struct {
+								mode string
+								args []string
+							}
+							firsts := []first{}
+							for _, pt := range writePoints {
+								firsts = append(firsts, first{"crash at " + pt, []string{"-crash", pt}})
+							}
+							for _, k := range []int{len(shortB) + 20, len(bigB) / 2, len(bigB) - 1} {
+								firsts = append(firsts, first{fmt.Sprintf("write failing at offset %d", k), []string{"-fsize", fmt.Sprint(k)}})
+							}
+							for _, f := range firsts {
+								sc := base
+								sc.Mode, sc.Point = "followup", f.mode
+								dir, _, _ := prepareDir(hasOld, pad, name)
+								if !hasOld {
+									_ = os.MkdirAll(dir, 0o755)
+								}
+								code1, out1 := runChild(append([]string{"-dir", dir, "-name", name, "-v", "4", "-pad", fmt.Sprint(bigPad)}, f.args...), "")
+								code2, out2 := runChild([]string{"-dir", dir, "-name", name, "-v", "3", "-pad", fmt.Sprint(pad)}, "")
+								sc.Outcome = fmt.Sprint("exit ", code1, " then exit ", code2)
+								switch {
+								case code1 != 0 && code1 != 3 && code1 != 128+9:
+									report(sc, Mismatch{Props: []string{"TOOL"}, What: "child-failed", Got: code1, Note: out1})
+								case code2 != 0:
+									report(sc, Mismatch{Props: []string{"C10"}, What: "write-after-interrupted-write-failed", Got: code2, Note: out2})
+								default:
+									report(sc, inspectDir(dir, [][]byte{shortB}, "after a complete write that followed a "+f.mode+" of a longer content")...)
+								}
+								os.RemoveAll(filepath.Dir(dir))
+								nsc++
+								col.done([]byte(jsonOf(sc)), true, 2)
+							}
+						}
+					}
+					// --- strace: normal run and two failing ones, validated by TLC afterwards
+					if *straceDir != "" && variant == "plain" {
+						for i, k := range []int{-1, newLen / 2, 0} {
+							sc := base
+							sc.Mode, sc.FSize = "strace", k
+							dir, allowed, _ := prepareDir(hasOld, pad, name)
+							if !hasOld {
+								_ = os.MkdirAll(dir, 0o755)
+							}
+							out := filepath.Join(*straceDir, fmt.Sprintf("trace-%s-%v-%d-%d.txt", enc, hasOld, pad, i))
+							a := []string{"-dir", dir, "-name", name, "-v", "2", "-pad", fmt.Sprint(pad)}
+							if k >= 0 {
+								a = append(a, "-fsize", fmt.Sprint(k))
+							}
+							code, cout := runChild(a, out)
+							sc.Outcome = fmt.Sprint("exit ", code)
+							if code != 0 && code != 3 {
+								report(sc, Mismatch{Props: []string{"TOOL"}, What: "straced-child-failed", Got: code, Note: cout})
+							}
+							oldLen := 0
+							if hasOld {
+								oldLen = len(allowed[0])
+							}
+							straces = append(straces, straceRec{File: out, Dir: dir, NewLen: newLen, OldLen: oldLen, Target: name, Sc: sc})
+							os.RemoveAll(filepath.Dir(dir))
+							nsc++
+							col.done([]byte(jsonOf(sc)), true, 1)
+						}
+					}
 				}
 			}
 		}
+	}
+	oldAsLink = false
+	if !hooksSeen {
+		report(writeScenario{Mode: "pause"}, Mismatch{Props: []string{"TOOL"}, What: "no-write-hook-fired", Note: "harness not built with -tags verif, or the hooks were removed"})
 	}
 	// --- stress: one writer alternating two contents, readers in parallel
 	{
